@@ -203,8 +203,11 @@ def install(g, pid, *, text, note, technique, quick, thorough, mons=None, forces
     FILTERS_NOTE = (" DemeLimit and LevelLimit are translated from pyhms/sprout/sprout_filters.py on every check (coq/Gen/GenFilters.v, hv/translate/filters_py.py) and proved equal, on every "
                     "candidate dictionary with distinct parents, to the filter models deme_limit / level_limit that the machine applies and the theorems are about (Proofs/GenEquivFilters.v); "
                     "python's int subtraction `limit - active` is translated to truncated subtraction on nat: faithful where active <= limit, which is the machine invariant LL.")
+    ACCESSORS_NOTE = (" The accessors behind the reported best (AbstractDeme.history / all_individuals / current_population / best_current_individual / best_individual, DemeTree.best_individual / "
+                      "best_leaf_individual) are translated on every check (coq/Gen/GenAccessors.v) and proved to be best_of over everything stored (Proofs/GenEquivAccessors.v); python's max() "
+                      "on Individuals = best_of (first maximal element) is part of the trusted base.")
     g["MANIFEST"] = {"text": text + (" The same for the run() translated from the current sources (code_moment theorems)." if "driver" in front_ends and pid != "C11" else ""),
-                     "note": note + " " + COMMON_NOTE + (DRIVER_NOTE if "driver" in front_ends else "") + (STOPS_NOTE if "stops" in front_ends else "") + (FILTERS_NOTE if ("levellimit" in front_ends or "demelimit" in front_ends) else ""),
+                     "note": note + " " + COMMON_NOTE + (DRIVER_NOTE if "driver" in front_ends else "") + (STOPS_NOTE if "stops" in front_ends else "") + (ACCESSORS_NOTE if "accessors" in front_ends else "") + (FILTERS_NOTE if ("levellimit" in front_ends or "demelimit" in front_ends) else ""),
                      "technique": technique + ("; python-ast -> Gallina translation of tree.py and the deme run_metaepoch loops with a machine-checked simulation by the small-step machine" if "driver" in front_ends and pid != "C11" else
                                                "; static population-freshness analysis in the driver translator" if pid == "C11" else "")}
 
